@@ -38,6 +38,8 @@ REQUIRED_OBS = ["shutdown_from_cancelled_task", "lives_judged", "shutdown_instan
                 "during_connect_in_flight", "steady_state", "reinit_ok", "socket_level",
                 "overlapping_shutdown_calls"]
 SOAK = True   # also judged by the whole-run monitors of the soak sessions (vf/soak.py)
+# (the instants this check judges are measured against non-eager task start-up: DESIGN 12)
+EAGER_OK = False
 BUDGET = {"quick": 110, "thorough": 1500}
 
 TIMELINES = ["cold_refuse", "latency3", "handshake", "handshake_bytes", "slow_handshake",
